@@ -98,3 +98,29 @@ Example C08_lbdy_hyp_inhabited :
   lb_dec (lb_enc (lb_derive C08_lbdy_witness [5] true)) = Some C08_lbdy_witness /\
   lb_etflag (lb_view_of C08_lbdy_witness) [6] = [(2004100, 60000)].
 Proof. vm_compute. repeat split; try reflexivity. discriminate. Qed.
+
+(* ======================================================================================================
+   CAMx one3d family (one3d / humidity / vertical_diffusivity), Model/One3d.v
+   ====================================================================================================== *)
+From PNC Require Import Model.One3d Proofs.One3dProofs.
+
+(* read(write(f)) for files with two or more steps (the writer ncf2one3d is tied to o_enc by the correspondence) *)
+Theorem C08_one3d_read_write : forall c, o_wf c = true -> o_readable c = true ->
+  o_mm_read (o_ny c) (o_nx c) (o_enc c) (4 * Z.of_nat (length (o_enc c))) = Ok (o_view_of c).
+Proof. exact o_mm_read_enc. Qed.
+Print Assumptions C08_one3d_read_write.
+
+Theorem C08_one3d_rewrite_idempotent : forall c, o_wf c = true ->
+  match o_dec (o_nx c) (o_ny c) (o_nz c) (o_enc c) with Some c' => o_enc c' = o_enc c | None => False end.
+Proof. exact o_rewrite_idempotent. Qed.
+Print Assumptions C08_one3d_rewrite_idempotent.
+
+(* time flags: ConvertCAMxTime on (YYJJJ, HHMM of whole hours) equals the specification (YYYYJJJ, HHMMSS) *)
+Theorem C08_one3d_time_flags : forall dates hs, Forall (fun h => 0 <= h <= 23) hs ->
+  o_tflag dates (map (fun h => h * 100) hs) = o_spec_tflag dates (map (fun h => h * 100) hs).
+Proof. exact o_tflag_spec. Qed.
+Print Assumptions C08_one3d_time_flags.
+
+Example C08_one3d_flags_inhabited :
+  o_tflag [99365; 99365; 1] [2200; 2300; 0] = [(1999365, 220000); (1999365, 230000); (2000001, 0)].
+Proof. vm_compute. reflexivity. Qed.
